@@ -1,11 +1,92 @@
-(* C15 -- multiset sparse vectors. Only property theorems here. *)
+(* C15 -- sparse vectors built as multisets answer present-value queries naturally.
+   Only property theorems here. See Props/C02.v for the reading guide (contracts, oracle width). *)
 From Coq Require Import NArith List Bool.
 Require Import SDS.Model.Mach SDS.Model.Bits SDS.Model.Raw SDS.Model.IntVec SDS.Model.BitVec SDS.Model.Sparse.
-Require Import SDS.Spec.BitSeq SDS.Spec.ValSeq SDS.Proofs.BVCommon SDS.Proofs.SparseProof.
+Require Import SDS.Spec.BitSeq SDS.Spec.ValSeq SDS.Proofs.BVCommon SDS.Proofs.SparseSeq SDS.Proofs.SparseProof.
+Require Import SDS.Proofs.SparseBuild SDS.Proofs.SparseMain.
 Import ListNotations.
 Open Scope N_scope.
 
-Theorem C15_buckets : forall universe w,
-  1 <= w <= 63 -> get_buckets universe w = Ok ((universe + 2 ^ w - 1) / 2 ^ w).
-Proof. exact get_buckets_spec. Qed.
-Print Assumptions C15_buckets.
+(* For every universe, every non-decreasing value list below it (duplicates allowed, any length, also longer than
+   the universe), every width: SparseBuilder::multiset + try_set + try_from succeeds and
+   count_ones = number of values, count_zeros saturates (N subtraction), select(i) = i-th value,
+   rank(i) = number of values below i for EVERY i, get(i) = whether i occurs (i < n),
+   successor = the FIRST pair (index, value) with value >= v, predecessor = the LAST pair with value <= v. *)
+Theorem C15_multiset : forall sp md w' n Vs,
+  high_contract sp md ->
+  n < 2 ^ 64 -> 1 <= w' <= 63 -> nondecreasing Vs = true -> all_below n Vs = true ->
+  lenN Vs + buckets_of n (eff_width w' n (lenN Vs)) < 2 ^ 64 ->
+  exists sv H,
+    sv_build_multiset sp md w' n Vs = Ok (inl sv) /\
+    (let w := eff_width w' n (lenN Vs) in
+     bv_select_ok sp md (sv_high sv) H /\
+     lenB H = lenN Vs + (n + 2 ^ w - 1) / 2 ^ w /\
+     (forall i, i < lenN Vs -> select1 H i = Some (nthd Vs i / 2 ^ w + i)) /\
+     (forall b, b < (n + 2 ^ w - 1) / 2 ^ w -> select0 H b = Some (b + vs_rank Vs ((b + 1) * 2 ^ w)))) /\
+    (sv_len sv = n /\ sv_count_ones sv = lenN Vs /\ sv_count_zeros sv = n - lenN Vs /\
+     (forall i, i < n -> sv_get sp md sv i = Ok (vs_get Vs i)) /\
+     (forall i, sv_rank sp md sv i = Ok (vs_rank Vs i)) /\
+     (forall r, sv_select sp md sv r = Ok (vs_select Vs r)) /\
+     (forall v, it_first md sv (sv_predecessor sp md sv v) = Ok (hd_error (vs_pred Vs v))) /\
+     (forall v, it_first md sv (sv_successor sp md sv v) = Ok (hd_error (vs_succ Vs v))) /\
+     sv_is_multiset md sv = Ok (has_dup Vs)) /\
+    (* the bit iterator lists the membership bits of the positions (duplicates skipped from both ends), the set-bit
+       iterators list the values with their indices; in both directions and any interleaving *)
+    ((forall pat, (let* s := sv_iter_new md sv in sbi_drive md sv pat s) = Ok (deque_run (vs_bits Vs n) pat)) /\
+     (forall pat, it_drive md sv pat (sv_one_iter sv) = Ok (deque_run (vs_ranked Vs) pat)) /\
+     (forall r pat, (let* it := sv_select_iter sp md sv r in it_drive md sv pat it) = Ok (deque_run (skipN (vs_ranked Vs) r) pat)) /\
+     (forall v pat, (let* it := sv_predecessor sp md sv v in it_drive md sv pat it) = Ok (deque_run (vs_pred Vs v) pat)) /\
+     (forall v pat, (let* it := sv_successor sp md sv v in it_drive md sv pat it) = Ok (deque_run (vs_succ Vs v) pat))).
+Proof. exact sparse_multiset_exact. Qed.
+Print Assumptions C15_multiset.
+
+(* try_from_iter accepts every non-decreasing sequence (whose last value + 1 fits in usize), sizes the universe
+   to last + 1 (0 for the empty sequence) and the result answers as above *)
+Theorem C15_try_from_iter_accepts : forall sp md w' Vs,
+  high_contract sp md ->
+  1 <= w' <= 63 -> nondecreasing Vs = true ->
+  (forall v, last_opt Vs = Some v -> v + 1 < 2 ^ 64) ->
+  let n := match last_opt Vs with Some v => v + 1 | None => 0 end in
+  lenN Vs + buckets_of n (eff_width w' n (lenN Vs)) < 2 ^ 64 ->
+  exists sv, sv_try_from_iter sp md w' Vs = Ok (inl sv) /\
+    (sv_len sv = n /\ sv_count_ones sv = lenN Vs /\ sv_count_zeros sv = n - lenN Vs /\
+     (forall i, i < n -> sv_get sp md sv i = Ok (vs_get Vs i)) /\
+     (forall i, sv_rank sp md sv i = Ok (vs_rank Vs i)) /\
+     (forall r, sv_select sp md sv r = Ok (vs_select Vs r)) /\
+     (forall v, it_first md sv (sv_predecessor sp md sv v) = Ok (hd_error (vs_pred Vs v))) /\
+     (forall v, it_first md sv (sv_successor sp md sv v) = Ok (hd_error (vs_succ Vs v))) /\
+     sv_is_multiset md sv = Ok (has_dup Vs)) /\
+    ((forall pat, (let* s := sv_iter_new md sv in sbi_drive md sv pat s) = Ok (deque_run (vs_bits Vs n) pat)) /\
+     (forall pat, it_drive md sv pat (sv_one_iter sv) = Ok (deque_run (vs_ranked Vs) pat)) /\
+     (forall r pat, (let* it := sv_select_iter sp md sv r in it_drive md sv pat it) = Ok (deque_run (skipN (vs_ranked Vs) r) pat)) /\
+     (forall v pat, (let* it := sv_predecessor sp md sv v in it_drive md sv pat it) = Ok (deque_run (vs_pred Vs v) pat)) /\
+     (forall v pat, (let* it := sv_successor sp md sv v in it_drive md sv pat it) = Ok (deque_run (vs_succ Vs v) pat))).
+Proof. exact sparse_try_from_iter_accepts. Qed.
+Print Assumptions C15_try_from_iter_accepts.
+
+(* ... and rejects every other sequence with an Err (inr = the error result, never a panic): a value below its
+   predecessor or above the last value is reported by try_set. No assumption about the embedded bitvector is
+   needed here: the rejection happens before the high part is frozen. *)
+Theorem C15_try_from_iter_rejects : forall sp md w' Vs,
+  1 <= w' <= 63 -> nondecreasing Vs = false ->
+  (forall v, last_opt Vs = Some v -> v + 1 < 2 ^ 64) ->
+  let n := match last_opt Vs with Some v => v + 1 | None => 0 end in
+  lenN Vs + buckets_of n (eff_width w' n (lenN Vs)) < 2 ^ 64 ->
+  exists e, sv_try_from_iter sp md w' Vs = Ok (inr e).
+Proof. exact sparse_try_from_iter_rejects. Qed.
+Print Assumptions C15_try_from_iter_rejects.
+
+Example C15_reject_example : sv_try_from_iter Pdep Debug 1 [3; 4; 2; 7] = Ok (inr ERR_ORDER).
+Proof. vm_compute. reflexivity. Qed.
+
+(* non-vacuity: the documentation example of try_from_iter (width 1 is what the crate chooses) *)
+Example C15_doc_example :
+  match sv_try_from_iter Pdep Debug 1 [3; 4; 4; 7; 11; 19] with
+  | Ok (inl sv) =>
+      sv_len sv = 20 /\ sv_count_ones sv = 6 /\ sv_is_multiset Debug sv = Ok true /\
+      sv_select Pdep Debug sv 2 = Ok (Some 4) /\ sv_rank Pdep Debug sv 5 = Ok 3 /\
+      it_first Debug sv (sv_successor Pdep Debug sv 4) = Ok (Some (1, 4)) /\
+      it_first Debug sv (sv_predecessor Pdep Debug sv 4) = Ok (Some (2, 4))
+  | _ => False
+  end.
+Proof. vm_compute. repeat split. Qed.
